@@ -346,7 +346,10 @@ type v14WStream struct {
 	dataFrames [2]int
 	rstBy      int // 0 none, 1 client, 2 server
 	rstCode    uint32
-	beforeAck  bool // the request HEADERS were written before the client acknowledged the server's SETTINGS
+	// at the first RST_STREAM: the other request streams that were open on the wire at that
+	// moment (request HEADERS sent, not reset, END_STREAM not yet seen in both directions)
+	openAtRst int
+	beforeAck bool // the request HEADERS were written before the client acknowledged the server's SETTINGS
 }
 
 type v14Side struct {
@@ -574,6 +577,11 @@ func (w *v14Wire) onFrame(d int, f h2ref.Frame) {
 		st := w.st(f.StreamID)
 		if st.rstBy == 0 {
 			st.rstBy, st.rstCode = d+1, code
+			for _, o := range w.streams {
+				if o != st && o.blocks[0] > 0 && o.rstBy == 0 && !(o.ended[0] && o.ended[1]) {
+					st.openAtRst++
+				}
+			}
 		}
 		w.ev["rst_stream_"+[2]string{"c2s", "s2c"}[d]]++
 		w.tr("%s RST_STREAM s=%d code=%d", v14DirName[d], f.StreamID, code)
